@@ -181,6 +181,11 @@ def detector_specs():
     return {
         "PELT": (lambda s, hp: PELT(penalty_scale=s, min_segment_length=hp["m"]), "penalty_",
                  lambda n, p, hp: 2 * p * lg(n), lambda n: [{"m": m} for m in (1, 2, 3) if n >= 2 * m]),
+        # the statement's formula is 2 p log n whatever the cost (the number of parameters per segment enters CAPA's penalty only)
+        "PELT.cost": (lambda s, hp: PELT(cost={"L2": L2Cost(), "GaussianVar": GaussianVarCost(), "GaussianCov": GaussianCovCost(),
+                                               "L2(0)": L2Cost(param=0.0)}[hp["cost"]], penalty_scale=s, min_segment_length=hp["m"]),
+                      "penalty_", lambda n, p, hp: 2 * p * lg(n),
+                      lambda n: [{"cost": c, "m": 4} for c in ("L2", "GaussianVar", "GaussianCov", "L2(0)") if n >= 8]),
         "SeededBinarySegmentation": (lambda s, hp: SeededBinarySegmentation(threshold_scale=s, min_segment_length=hp["m"],
                                                                            max_interval_length=hp["M"]), "threshold_",
                                      lambda n, p, hp: 2 * p * math.sqrt(lg(n)),
